@@ -1,11 +1,13 @@
 """C08: multi-threaded readers and writers are equivalent to the single-threaded ones."""
 from vlib import core
-from checks.mtplans import run_plan, reader_cfgs, writer_cfgs
+from checks.mtplans import run_plan, reader_cfgs, writer_cfgs, run_replay
 
 
 def run(tier, replay=None):
     ctx = core.Check("C08", tier, "model_checking")
     core.build_harness()
+    if replay:
+        return run_replay(ctx, {"C08"}, replay)
     quick = tier == "quick"
     plan = reader_cfgs([
         ("lz2-3u", "lzma2", 2, ["I", "I", "I"], dict(), "tour"),
@@ -15,7 +17,11 @@ def run(tier, replay=None):
         ("lz2-empty", "lzma2", 2, [], dict(), "tour"),
         ("lz2-1w", "lzma2", 1, ["I", "I", "I"], dict(), "tour"),
         ("lz2-3w-4u", "lzma2", 3, ["I", "I", "D", "I"], dict(), "rand"),
+        ("lz2-preset", "lzma2", 2, ["I", "D", "I"], dict(extra=dict(preset=True)), "rand"),
+        ("lz2-unc-trailing", "lzma2", 2, ["I", "I", "D"], dict(extra=dict(unc=[1], trailing=9)), "rand"),
+        ("lz2-text-1k", "lzma2", 2, ["I", "I", "I"], dict(extra=dict(data_class="text", unit_len=1500)), "rand"),
         ("lzip-3m", "lzip", 2, ["M", "M", "M"], dict(), "tour"),
+        ("lzip-unc", "lzip", 2, ["M", "M"], dict(extra=dict(unc=[0], data_class="mixed", unit_len=2000)), "rand"),
         ("lzip-empty-member", "lzip", 2, ["M", "M", "M"], dict(empty=[1]), "rand"),
         ("lzip-1m", "lzip", 2, ["M"], dict(), "tour"),
         ("lzip-3w", "lzip", 3, ["M", "M", "M"], dict(), "rand"),
